@@ -182,6 +182,41 @@ func ParseLoc(e *liquid.Engine, src, path string, line int) (p Parsed) {
 	return
 }
 
+// sinkWriter is a plain io.Writer that is not a *bytes.Buffer (code that
+// special-cases buffer destinations must still produce the same bytes).
+type sinkWriter struct{ b []byte }
+
+func (s *sinkWriter) Write(p []byte) (int, error) { s.b = append(s.b, p...); return len(p), nil }
+
+// sinkStringWriter additionally implements io.StringWriter.
+type sinkStringWriter struct{ sinkWriter }
+
+func (s *sinkStringWriter) WriteString(x string) (int, error) {
+	s.b = append(s.b, x...)
+	return len(x), nil
+}
+
+// WriterKind selects the destination the FRender forms write to when the
+// caller passes no writer: 0 *bytes.Buffer, 1 plain io.Writer, 2 *strings.Builder,
+// 3 io.Writer+io.StringWriter.
+var WriterKind int
+
+func defaultWriter() (io.Writer, func() string) {
+	switch WriterKind {
+	case 1:
+		s := &sinkWriter{}
+		return s, func() string { return string(s.b) }
+	case 2:
+		s := &strings.Builder{}
+		return s, s.String
+	case 3:
+		s := &sinkStringWriter{}
+		return s, func() string { return string(s.b) }
+	}
+	b := new(bytes.Buffer)
+	return b, b.String
+}
+
 // Run executes one entry point. For EP < EPParseAndRender tpl must be non-nil.
 // w, if non-nil, is the writer for the FRender forms (default: a buffer).
 func Run(ep int, e *liquid.Engine, tpl *liquid.Template, src string, b map[string]any, w io.Writer) Res {
@@ -200,17 +235,16 @@ func Run(ep int, e *liquid.Engine, tpl *liquid.Template, src string, b map[strin
 			}
 			return Res{OK: true, Out: out}
 		case EPFRender:
-			var buf *bytes.Buffer
+			var get func() string
 			if w == nil {
-				buf = new(bytes.Buffer)
-				w = buf
+				w, get = defaultWriter()
 			}
 			err := tpl.FRender(w, b)
 			if err != nil {
 				return errRes(err, "")
 			}
-			if buf != nil {
-				return Res{OK: true, Out: buf.String()}
+			if get != nil {
+				return Res{OK: true, Out: get()}
 			}
 			return Res{OK: true}
 		case EPParseAndRender:
@@ -226,17 +260,16 @@ func Run(ep int, e *liquid.Engine, tpl *liquid.Template, src string, b map[strin
 			}
 			return Res{OK: true, Out: out}
 		case EPParseAndFRender:
-			var buf *bytes.Buffer
+			var get func() string
 			if w == nil {
-				buf = new(bytes.Buffer)
-				w = buf
+				w, get = defaultWriter()
 			}
 			err := e.ParseAndFRender(w, []byte(src), b)
 			if err != nil {
 				return errRes(err, "")
 			}
-			if buf != nil {
-				return Res{OK: true, Out: buf.String()}
+			if get != nil {
+				return Res{OK: true, Out: get()}
 			}
 			return Res{OK: true}
 		}
